@@ -22,6 +22,7 @@ META = {
 
 
 def run(prog, report, tier):
+    meshrules.check_exact_mesh(prog, report)
     meshrules.check_ownership(prog, report)
     meshrules.check_pairing(prog, report)
     meshrules.check_cross(prog, report)
